@@ -106,6 +106,9 @@ def texts(w, seed=0, name=""):
         ("ones", "1" * w, "l"),
         ("zeros", "0" * w, "l"),
         ("digits", "1234567890123456789012345678901234567890"[:w], "l"),
+        ("process", "PROCESS:JAPAN-JAXA-ALOS2-EICS  20191011 144315", "l"),
+        ("process-short", "PROCESS:JAXA  20191011 144315", "l"),
+        ("orbit", "ORBIT:ALOS2 A 14415", "l"),
     ]
     return _fit(cands, w)
 
